@@ -38,13 +38,34 @@ var solvers = []solverDef{
 	{"z3-5.1.0/mbqi", "z3-new", func(t int) []string { return []string{"-in", fmt.Sprintf("-T:%d", t), "smt.ematching=false"} }},
 }
 
-func (o *Obligation) scriptText(withModel bool) string {
+func (o *Obligation) scriptText(withModel bool) string { return o.scriptTextG(withModel, false) }
+
+// hasQuantLines: does the script assert quantified formulas (whose ground instances the engine
+// has already added)?
+func (o *Obligation) hasQuantLines() bool {
+	for _, l := range o.Script.lines[:o.Prefix] {
+		if strings.HasPrefix(l, "(assert") && strings.Contains(l, "(forall ((q.") {
+			return true
+		}
+	}
+	return false
+}
+
+// scriptTextG with ground=true leaves out the asserted formulas that still contain one of the
+// engine's own quantifiers (fewer assumptions: an `unsat` answer is still a proof; `sat` means nothing).
+func (o *Obligation) scriptTextG(withModel, ground bool) string {
 	var b strings.Builder
 	for _, l := range o.Script.lines[:o.Prefix] {
+		if ground && strings.HasPrefix(l, "(assert") && strings.Contains(l, "(forall ((q.") {
+			continue
+		}
 		b.WriteString(l)
 		b.WriteByte('\n')
 	}
 	for _, l := range o.Extra {
+		if ground && strings.HasPrefix(l, "(assert") && strings.Contains(l, "(forall ((q.") {
+			continue
+		}
 		b.WriteString(l)
 		b.WriteByte('\n')
 	}
@@ -166,11 +187,35 @@ func solveAll(obls []*Obligation, tier string, par int, dumpDir string) map[*Obl
 			acquire(1)
 			res := runSolver(solvers[0], script, quickT)
 			release(1)
+			ground := ""
+			if res.Status != "unsat" && res.Status != "sat" && o.Kind != "cover" && o.hasQuantLines() {
+				ground = o.scriptTextG(false, true)
+			}
 			if res.Status != "unsat" && res.Status != "sat" {
 				raceMu.Lock()
 				acquire(len(solvers))
 				raceMu.Unlock()
-				r2 := race(script, slowT, solvers)
+				var r2 SolveResult
+				if ground != "" {
+					// race the ground variant (instances only) against the full script
+					gch := make(chan SolveResult, 2)
+					go func() {
+						g := runSolver(solvers[0], ground, slowT)
+						if g.Status != "unsat" {
+							g.Status = "unknown"
+						} else {
+							g.Solver += "/ground"
+						}
+						gch <- g
+					}()
+					go func() { gch <- race(script, slowT, solvers[1:]) }()
+					r2 = <-gch
+					if r2.Status != "unsat" && r2.Status != "sat" {
+						r2 = <-gch
+					}
+				} else {
+					r2 = race(script, slowT, solvers)
+				}
 				release(len(solvers))
 				if r2.Status == "unsat" || r2.Status == "sat" || res.Status == "error" {
 					r2.Seconds += res.Seconds
